@@ -19,8 +19,13 @@ def host(facts):
     """The body that owns the compaction: `move_input` when it exists, else the request-parser method copying inside
     `self.input`."""
     b = facts.body(RP + "::move_input", required=False)
-    if b is not None:
+    if b is not None and b.argc >= 1 and b.local_name(1) == "self":
         return b, False
+    if b is not None:
+        # the helper is an associated function of the buffer and the two lengths: decided in its caller, the helper looked through
+        callers = {cb.npath: cb for (cb, bi, t, name) in F.calls_to(facts, lambda n: n == RP + "::move_input") if not cb.promoted}
+        if len(callers) == 1:
+            return list(callers.values())[0], True
     hosts = []
     for (cb, bi, t, name) in F.calls_to(facts, lambda n: n.endswith("copy_within")):
         if cb.npath.startswith(RP + "::") and not cb.promoted and cb not in hosts:
@@ -52,7 +57,7 @@ def geometry(facts, contracts=None):
             return ('slice', n)
         cs = dict(contracts or {})
         cs["replace_with::replace_with_and_return"] = c_replace_with
-        it = R.Interp(facts, ["input_len"], len_of="input", contracts=cs)
+        it = R.Interp(facts, ["input_len"], len_of="input", contracts=cs, inline={RP + "::move_input"})
         ends = it.run(b)
         rem_of = lambda e: e.heap.get("@rem")
     bad = []
